@@ -392,7 +392,7 @@ EF = dict(dfcc=True, loop_contracts=True, with_unwind=True,
           defines=["-DRR_INTER_MAX=64U"])
 O("C09.Sly", ["C09", "C16", "C01"], "h_C09.c", "h_C09_Sly",
   "rrul_fill_Sly: memory safe, returns <= nti and <= COUNT, terminates, output strictly increasing, within [DTSTART, UNTIL], real date-times - for every valid DTSTART, every well-formed container state, INTERVAL 1..64 (thorough tier only: 24 min, 14 GB on this machine)",
-  ["rrul_fill_Sly"], **EF)
+  ["rrul_fill_Sly"], tiers=["thorough"], **EF)
 
 # ------------------------------------------------------------------ C05
 P("C05", level="other",
